@@ -102,7 +102,7 @@ def _copy_scope(scope: dict) -> dict:
 class ScriptedApp:
     """programs: {key: [ops]} keyed by scope path (or 'lifespan'); '*' is the default.
 
-    ops: ["recv"] | ["recv_all"] | ["recv_disc"] | ["send", msg] | ["sleep", dt] |
+    ops: ["recv"] | ["recv_all"] | ["recv_disc"] | ["send", msg] | ["sleep", dt] | ["yield", n] |
     ["raise", name] | ["return"] | ["respond", status, headers, chunks] |
     ["drain_tail"] | ["wait_quiet"] | ["set_state", k, v]
     """
@@ -248,6 +248,9 @@ class ScriptedApp:
                     inst, send, {"type": "http.response.body", "body": "", "more_body": False})
             elif name == "sleep":
                 await _sleep(op[1])
+            elif name == "yield":  # n scheduler passes: lands the next op inside short windows
+                for _ in range(int(op[1])):
+                    await _sleep(0)
             elif name == "raise":
                 inst.exit = "raise:" + op[1]
                 raise {"Exception": Exception, "ValueError": ValueError,
